@@ -68,7 +68,11 @@ func c18R1(c *Ctx, r *Report) {
 			}
 		}
 	}
-	invAll := c.Calls(inv, false, nameIs("(*db.DatabaseContext).invalidateAllPrincipals"))
+	// invalidation sites: the call itself, or a call of a helper that makes it (extracted block)
+	invAll := c.EffectSites(inv, func(in ssa.Instruction) bool {
+		ci, ok := in.(ssa.CallInstruction)
+		return ok && c.CalleeName(ci) == "(*db.DatabaseContext).invalidateAllPrincipals"
+	}, 2)
 	upd := c.Calls(inv, false, nameIs("(*db.DatabaseContext).updateAllPrincipalsSequences"))
 	// Re-sequencing the principal documents (regenerate_sequences) rewrites them as loaded and does NOT recompute their channels
 	// and roles, so it does not stand in for the invalidation: only invalidateAllPrincipals discharges this obligation.
@@ -80,7 +84,7 @@ func c18R1(c *Ctx, r *Report) {
 	okPass := len(changedEdges) > 0 && len(invAll) > 0
 	for _, e := range changedEdges {
 		// only the last DocsChanged test (the one guarding the invalidation) must lead to it: the one whose true-successor reaches invalidateAll
-		if ReachFrom(e.To(), 0, func(in ssa.Instruction) bool { return len(invAll) > 0 && in == ssa.Instruction(invAll[0]) }, nil) == nil {
+		if ReachFrom(e.To(), 0, func(in ssa.Instruction) bool { return len(invAll) > 0 && in == invAll[0] }, nil) == nil {
 			continue
 		}
 		// skip the index-initialisation test (a compound condition): require the block to be the direct guard = invalidateAll dominated by this edge
@@ -97,7 +101,7 @@ func c18R1(c *Ctx, r *Report) {
 	r.Check("C18-R1", "fn=(*db.ResyncManagerDCP).invalidatePrincipals success requires=invalidateAllPrincipals|no-docs-changed", c.Pos(inv.Pos()), okPass && leak == nil,
 		"every success path invalidates all principals or passes the DocsChanged()==0 edge", "invalidatePrincipals can return success without invalidating the principals' computed channels and roles although documents changed (re-sequencing the principal documents does not recompute them): users keep the access computed under the old sync function")
 	fe := newFailEdge(c)
-	for _, fn := range []*ssa.Function{inv, all, c.Func("(*db.DatabaseContext).updateAllPrincipalsSequences")} {
+	for _, fn := range append(c.PrivateHelpers(inv, 2), all, c.Func("(*db.DatabaseContext).updateAllPrincipalsSequences")) {
 		if fn == nil {
 			continue
 		}
